@@ -1,6 +1,8 @@
 package cachesim
 
 import (
+	"strconv"
+	"os"
 	"fmt"
 	"math"
 	"sort"
@@ -109,6 +111,8 @@ type Engine struct {
 	seqNow         uint64
 	lastPolicyPush uint64 // seq at which the policy goroutine last recorded a batch
 	lastClearInv   uint64 // seq of the latest Clear invocation
+	modelAs        string // reference model deciding another property (C15 freshness)
+	modelFrom      uint64
 	nMarkerQueued  int    // Wait markers that have entered the write buffer
 	nMarkerClosed  int    // Wait markers closed (by the applier or by a Clear's drain)
 	keyHash        []uint64
@@ -597,6 +601,7 @@ func (e *Engine) Run(plan *Plan, dec *core.Decider) *RunResult {
 	e.sim = sim
 	core.S = sim
 	sim.YieldFilter = e.onYield
+	sim.AutoPM, sim.AutoVisits, sim.AutoSeed = plan.Sim.PAuto, plan.Sim.AutoVisits, plan.Seed
 	sim.NotifySite = siteDelSent
 	sim.NotifySite2 = ristrettoSiteWaitRecv
 	if plan.Flags.Race {
@@ -816,6 +821,24 @@ func (e *Engine) chooseGate(t *core.Task) int {
 	return c
 }
 
+// StepTrace (debugging aid, VERIF_STEP_TRACE=<file>): one line per scheduling
+// step, written by the worker after each run.
+var StepTrace []byte
+var stepTraceOn = os.Getenv("VERIF_STEP_TRACE") != ""
+
+//go:norace
+func traceStep(step int, t *core.Task, gate int) {
+	// no fmt here: its sync.Pool is shared with the tasks, and the scheduler
+	// runs with the race detector's view of synchronisation switched off
+	b := strconv.AppendInt(StepTrace, int64(step), 10)
+	b = append(append(b, ' '), t.Name...)
+	b = strconv.AppendInt(append(b, " site="...), int64(t.Site), 10)
+	b = strconv.AppendUint(append(b, " key="...), t.Key, 10)
+	b = strconv.AppendInt(append(b, " gate="...), int64(gate), 10)
+	b = strconv.AppendInt(append(b, " st="...), int64(t.State()), 10)
+	StepTrace = append(b, '\n')
+}
+
 func (e *Engine) release(t *core.Task) {
 	gate := 0
 	if t.State() == core.StIdle {
@@ -831,6 +854,9 @@ func (e *Engine) release(t *core.Task) {
 		if e.lastOrd != t.Ord {
 			e.nPreemptAfterUnlock++ // another task ran between the unlock and the code after it
 		}
+	}
+	if stepTraceOn {
+		traceStep(e.sim.Step, t, gate)
 	}
 	e.sim.Release(t, gate)
 	if atomic.LoadInt32(&e.sim.Notifies) != 0 {
@@ -1411,8 +1437,10 @@ func (e *Engine) runOp(cl *client, oi int, op Op) {
 		case OpMetrics:
 			if m := e.api.Metrics(); m != nil {
 				// C17: GetsKept+GetsDropped never exceeds the number of Gets (checked at every read)
-				gets := atomic.LoadInt64(&e.getsStartedEver)
+				// (the counters are read first, the bound afterwards: a Get may start
+				// while the metric cells are being summed)
 				kd := int64(m.GetsKept() + m.GetsDropped())
+				gets := atomic.LoadInt64(&e.getsStartedEver)
 				a = kd
 				if e.epochValid && !e.clearDirty && atomic.LoadInt32(&e.clearActive) == 0 && kd > gets {
 					e.violate("C17", "gets-kept-dropped", fmt.Sprintf("GetsKept+GetsDropped=%d exceeds Gets issued=%d", kd, gets), 0)
